@@ -110,18 +110,41 @@ Theorem C11_hooks_see_options : forall cf o c,
 Proof. exact fill_opts. Qed.
 Print Assumptions C11_hooks_see_options.
 
-(* generator-based managers: exiting and non-exiting lookup paths give the same verdict *)
+(* generator-based managers: under with_contexts=True the exiting and the non-exiting lookup
+   path call the registered hook with the same frame carrying the same contexts, so the verdict
+   (also of a hook that answers `frame.contexts[0].obj`) does not depend on the path *)
 Theorem C11_gcm_paths : forall cf o c,
-  gcm (mattrs cf (obj c)) = true -> inner c = None ->
+  gcm (mattrs cf (obj c)) = true -> inner c = None -> wc_of o = true ->
   let m := obj c in
   let c1 := fst (fst (elab1 cf o c)) in
   snd (elab1 cf o c) = false /\ snd (fst (elab1 cf o c)) = [] /\ obj c1 = m
-  /\ inner c1 = (if exiting c then None else Some (gframes (mattrs cf m)))
+  /\ inner c1 = (if exiting c then None
+                 else Some (map (fun f => (f, fctx cf f)) (gframes (mattrs cf m))))
   /\ children c1 = children c
   /\ fst (fst (unwrap1 cf o c1)) =
      match greg cf (code (mattrs cf m)), gframes (mattrs cf m) with
-     | Some _, f :: _ => match greg cf (fcode cf f) with Some r => r | None => UNone end
+     | Some _, f :: _ =>
+         match greg cf (fcode cf f) with
+         | Some r => gverdict cf (fcode cf f) (fctx cf f) r
+         | None => UNone
+         end
      | _, _ => UNone
-     end.
+     end
+  /\ Forall (fun e => match e with VGen _ f _ cx _ => cx = fctx cf f | _ => True end)
+            (snd (fst (unwrap1 cf o c1))).
 Proof. exact gcm_paths. Qed.
 Print Assumptions C11_gcm_paths.
+
+(* the hypothesis with_contexts=True is needed: inside extract(with_contexts=False) only the
+   exiting path (extract_outermost) analyses contexts, and a hook answering from
+   frame.contexts unwraps the manager when exiting but not otherwise *)
+Theorem C11_gcm_paths_need_contexts :
+  exists cf c, gcm (mattrs cf (obj c)) = true /\ inner c = None /\
+    fst (fst (fill cf (Some (false, false)) c))
+    <> match fst (fst (fill cf (Some (false, false)) (mkctx (obj c) None [] false None true))) with
+       | Done c' => Done (mkctx (obj c') (inner c') (children c') (hidden c') (descr c') false)
+       | x => x
+       end
+    /\ (forall c', fst (fst (fill cf (Some (false, false)) c)) = Done c' -> obj c' = obj c).
+Proof. exact paths_differ_without_contexts. Qed.
+Print Assumptions C11_gcm_paths_need_contexts.
